@@ -32,6 +32,14 @@ M.update({
  "reset-reverse-rank3": ("iterator.go", "\t\t\tit.nextIndex = 0\n\t\t\tfor i := range it.track {\n\t\t\t\tit.nextIndex += (it.shape[i] - 1) * it.strides[i]\n\t\t\t}", "\t\t\tit.nextIndex = 0\n\t\t\tfor i := range it.track {\n\t\t\t\tif i == 1 && len(it.track) == 3 && it.strides[2] != 1 {\n\t\t\t\t\tcontinue\n\t\t\t\t}\n\t\t\t\tit.nextIndex += (it.shape[i] - 1) * it.strides[i]\n\t\t\t}", ["C05"], "Reset of a reversed rank-3 strided iterator forgets the middle axis", 1),
  "slice-mask-window": ("dense_matop.go", "\tif t.IsMasked() {\n\t\tview.mask = t.mask[ndStart:ndEnd]\n\t}\n\n\treturn view, err\n}", "\tif t.IsMasked() {\n\t\tview.mask = t.mask[ndStart:ndEnd]\n\t\tif t.IsView() && ndStart > 0 {\n\t\t\tview.mask = t.mask[ndStart-1 : ndEnd-1]\n\t\t}\n\t}\n\n\treturn view, err\n}", ["C15", "C05"], "mask window of a slice of a masked VIEW is shifted by one", 1),
 })
+M.update({
+ "maskcopy-swapped-index": ("array.go", "\t\t\t\tdmask[i] = smask[j]", "\t\t\t\tif i < len(smask) && j < len(dmask) {\n\t\t\t\t\tdmask[j] = smask[i]\n\t\t\t\t}", ["C15", "C04"], "copyDenseIter moves the mask with the destination and source positions swapped"),
+ "incr-relabels-order": ("defaultengine_prep.go", "\t\tif !incr && reuse != nil {\n\t\t\treuse.setDataOrder(o)", "\t\tif reuse != nil {\n\t\t\treuse.setDataOrder(o)", ["C16", "C07"], "an increment destination is relabelled with the operand's data order too"),
+ "requiresiterator-ignores-mask": ("dense.go", "\tif !t.o.IsContiguous() || !t.old.IsZero() || t.IsMasked() {", "\tif !t.o.IsContiguous() || !t.old.IsZero() || (t.IsMasked() && t.len() < 4) {", ["C15", "C05"], "masked tensors of four or more elements no longer require (masked) iterators"),
+ "transposemask-rank3": ("defaultengine_matop_transpose.go", "\t\ttmp[j] = orig[i]\n\t\tj++", "\t\tif a.Dims() >= 3 && j == 1 {\n\t\t\ttmp[j] = orig[0]\n\t\t} else {\n\t\t\ttmp[j] = orig[i]\n\t\t}\n\t\tj++", ["C15"], "physical transposition of a masked rank-3 tensor misplaces one mask bit"),
+ "slice-transposed-contiguous": ("ap.go", "\tif ap.o.IsTransposed() {\n\t\t// the strides of a lazily transposed tensor are permuted: no slice of it is a plain contiguous array\n\t\torder = MakeDataOrder(order, NonContiguous)\n\t}\n", "", ["C04", "C02"], "revert of fix d4a9197 (slices of lazily transposed tensors flagged contiguous)"),
+ "concat-keeps-masks-stripped": ("defaultengine_matop_misc.go", "\t\t\tT.(MaskedTensor).SetMask(Tmask)\n", "", ["C19"], "revert of fix f29937b (Concat strips operand masks)"),
+})
 HELPER = {"colmajor-strides-reversed": ("shape.go", "\nfunc boolToInt(b bool) int {\n\tif b {\n\t\treturn 1\n\t}\n\treturn 0\n}\n")}
 ids = sys.argv[1:] or list(M)
 out = []
